@@ -161,3 +161,13 @@ claim("C04",
       "Trusted: rustc MIR; the laziness table transcribed from the Jsonnet specification (rules/c04.py:LAZY). The flow graph is field-based and "
       "flow-insensitive (sound over-approximation of stored data). Builtins' internal evaluation order is not decided.",
       "DESIGN.md §2 C04")
+claim("C12",
+      "all-paths effect-order walk of the CLI entry (unconstrained and with each fallible step forced to fail); who-may-call; io::Result inspection; mode-flag decision table",
+      "Decides the structural core of C12: (R1) every success path of main_inner ends with exactly one final write (stdout or -o) and nothing "
+      "is computed after any file/stream write; stdout has a single writer in the three crates; (R2) every io::Result in the CLI and front-end is "
+      "inspected; (R3) for each of the fallible load/eval/manifest/ext-var steps, forcing it to fail leads to RunError::Generic with no write "
+      "afterwards; (R4) RunError::Usage has exactly its two sources and main maps Ok/Generic/Usage to 0/1/2; (R5) value_to_repr's decision table "
+      "over (-S, -y, --no-trailing-newline): newline iff the flag is absent, `---`/item/newline per item and a closing `...` for -y. Byte-exact "
+      "relations between modes, OS-level stream failures and clap's grammar are not decided.",
+      "Trusted: rustc MIR; std::fs::write / Stdout::write_all report failures through their io::Result.",
+      "DESIGN.md §2 C12")
